@@ -40,7 +40,11 @@ def build_and_run(demo, wt, work):
         return rc, out[-3000:]
     if demo.endswith('.cpp'):
         exe = os.path.join(work, 'demo.bin')
-        rc, out = sh(['sh', os.path.join(VERIF, 'triage', 'build.sh'), demo, exe], env={'REPO': wt})
+        flags = []
+        ff = os.path.join(os.path.dirname(demo), 'cxxflags.txt')      # a demonstration that needs a sanitizer says so here
+        if os.path.exists(ff):
+            flags = open(ff).read().split()
+        rc, out = sh(['sh', os.path.join(VERIF, 'triage', 'build.sh'), demo, exe] + flags, env={'REPO': wt})
         if rc != 0:
             return 'BUILD-FAILED', out[-3000:]
         rc, out = sh([exe], cwd=work, timeout=900)
@@ -115,7 +119,7 @@ def confirm(a):
         dst = os.path.join(SEEDED, a.id)
         os.makedirs(dst, exist_ok=True)
         shutil.copy(patch, os.path.join(dst, 'patch.diff'))
-        for extra in glob.glob(os.path.join(src, '*.cpp')) + glob.glob(os.path.join(src, '*.py')) + glob.glob(os.path.join(src, 'run.sh')):
+        for extra in glob.glob(os.path.join(src, '*.cpp')) + glob.glob(os.path.join(src, '*.py')) + glob.glob(os.path.join(src, 'run.sh')) + glob.glob(os.path.join(src, 'cxxflags.txt')):
             shutil.copy(extra, os.path.join(dst, os.path.basename(extra)))
             if extra.endswith('run.sh'):
                 t = open(os.path.join(dst, 'run.sh')).read().replace('/tmp/acekit/build.sh', '/verif/triage/build.sh')
